@@ -108,6 +108,10 @@ func (o *objectGoMapReflect) toValue(val Value, throw bool) (reflect.Value, bool
 
 func (o *objectGoMapReflect) _put(key reflect.Value, val Value, throw bool) bool {
 	if key.IsValid() {
+		if o.fieldsValue.IsNil() {
+			o.val.runtime.typeErrorResult(throw, "Cannot set property %v of a nil Go map", key)
+			return false
+		}
 		if o.extensible || o.fieldsValue.MapIndex(key).IsValid() {
 			v, ok := o.toValue(val, throw)
 			if !ok {
